@@ -6,6 +6,7 @@
         generation wrap mask <-> width; value ranges fit their fields
  .4 K10 ply shift: setScore/getScore use the same predicates and opposite signs
  .5 K11 bucket constants agree (loop bound 4, ~3 masks, alignment)
+ .7 K3  a resident tablebase always has its region reserved (class-invariant typestate, shared with C12.1)
  .6 K12 index bound: topBits*2^shift <= usedSize (floor-halving loop lemma) and
         getIndex(key)+3 < topBits*2^shift for every key, for every (topBits, shift) of the domain
 """
@@ -48,6 +49,10 @@ def run(fb, rep, tier):
     c4_plyshift(fb, rep)
     c5_bucket(fb, rep)
     c6_index_bound(fb, rep)
+    # .7 while a tablebase is resident its region is reserved, and it is dropped when the table is cleared: the
+    # generator/region typestate of C12.1 is the same obligation seen from the table's side
+    from . import C12
+    C12.c1_typestate(fb, rep, clause='C08.7')
 
 
 # ----------------------------------------------------------------------------- .1
